@@ -304,7 +304,7 @@ impl ReportableError for Error {
                         } else if !(fallback.span.start == 0 && fallback.span.end == 0) {
                             loc.span = fallback.span.clone();
                         } else {
-                            loc.span = 0..1;
+                            loc.span = 0..0;
                         }
                     }
                     loc
